@@ -95,3 +95,112 @@ theorem fixedPoint_error (P : ℕ) (x : SD) (scale : Dy) (hP : 1 ≤ P) (hx : 0 
   constructor <;> nlinarith [mul_pos hε0 hvpos, mul_pos hε0 hε0]
 
 end Lattigo.CKKS
+
+namespace Lattigo.CKKS
+
+/-! ## exactness: when the working precision holds the product, `fixedPoint` IS round-half-away(x·Δ) -/
+
+theorem bitLen_eq_of_bounds (m b : ℕ) (hb : 0 < b) (h1 : 2 ^ (b - 1) ≤ m) (h2 : m < 2 ^ b) : bitLen m = b := by
+  have hm : m ≠ 0 := by
+    have : 0 < 2 ^ (b - 1) := by positivity
+    omega
+  unfold bitLen
+  rw [if_neg hm]
+  have hlo : b - 1 ≤ m.log2 := (Nat.le_log2 hm).mpr h1
+  have hhi : m.log2 < b := (Nat.log2_lt hm).mpr h2
+  omega
+
+theorem bitLen_mul_pow (n j : ℕ) (hn : n ≠ 0) : bitLen (n * 2 ^ j) = bitLen n + j := by
+  have hb := bitLen_bounds n hn
+  have hp := bitLen_pos n hn
+  apply bitLen_eq_of_bounds
+  · omega
+  · have : bitLen n + j - 1 = (bitLen n - 1) + j := by omega
+    rw [this, pow_add]
+    exact Nat.mul_le_mul_right _ hb.1
+  · rw [pow_add]
+    exact Nat.mul_lt_mul_of_pos_right hb.2 (by positivity)
+
+/-- a number that fits `prec` bits is not changed by `roundRat`. -/
+theorem roundRat_exact (prec num : ℕ) (e : ℤ) (hn : 0 < num) (hb : bitLen num ≤ prec) :
+    (roundRat prec num 1 e).val = (num : ℚ) * (2 : ℚ) ^ e := by
+  have hn0 : num ≠ 0 := hn.ne'
+  have hbp := bitLen_pos num hn0
+  unfold roundRat
+  rw [if_neg hn0]
+  simp only []
+  have hb1 : bitLen 1 = 1 := by decide
+  rw [hb1]
+  set k : ℤ := (prec : ℤ) + 1 + ((1 : ℕ) : ℤ) - (bitLen num : ℤ) with hk
+  have hk2 : 2 ≤ k := by rw [hk]; push_cast; omega
+  have hkn : k = ((k.toNat : ℕ) : ℤ) := (Int.toNat_of_nonneg (by omega)).symm
+  have hp2 : pow2 (-k) = 1 := pow2_nonpos _ (by omega)
+  have hpk : pow2 k = 2 ^ k.toNat := rfl
+  rw [hp2, hpk, Nat.mul_one, Nat.div_one, Nat.mod_one]
+  set j := k.toNat with hj
+  have hj2 : 2 ≤ j := by omega
+  have hbl : bitLen (num * 2 ^ j) = prec + 2 := by
+    rw [bitLen_mul_pow num j hn0]
+    have : (j : ℤ) = (prec : ℤ) + 2 - (bitLen num : ℤ) := by rw [← hkn, hk]; push_cast; ring
+    omega
+  rw [hbl, show prec + 2 - prec = 2 by omega]
+  have hdiv : num * 2 ^ j = (num * 2 ^ (j - 2)) * 2 ^ 2 := by
+    have : j = (j - 2) + 2 := by omega
+    conv_lhs => rw [this, pow_add]
+    ring
+  have hmod : num * 2 ^ j % 2 ^ 2 = 0 := by rw [hdiv]; exact Nat.mul_mod_left _ _
+  have hquo : num * 2 ^ j / 2 ^ 2 = num * 2 ^ (j - 2) := by rw [hdiv]; exact Nat.mul_div_cancel _ (by norm_num)
+  rw [hmod, hquo]
+  simp only [show (2 : ℕ) ^ (2 - 1) = 2 by norm_num, show ¬ (2 < 0) by omega, decide_false, Bool.false_or]
+  rw [show ((0 : ℕ) == 2) = false by decide, Bool.false_and]
+  simp only [Bool.false_eq_true, if_false]
+  rw [Dy.norm_val]
+  push_cast
+  have h2 : (2 : ℚ) ≠ 0 := by norm_num
+  have e1 : (2 : ℚ) ^ (j - 2) = (2 : ℚ) ^ (((j - 2 : ℕ) : ℤ)) := (zpow_natCast _ _).symm
+  rw [e1, mul_assoc, ← zpow_add₀ h2]
+  congr 2
+  have : ((j - 2 : ℕ) : ℤ) = k - 2 := by omega
+  rw [this]; ring
+
+/-- **Exact fixed-point conversion.**  If the working precision `P` holds the product `|x|·Δ` and the same plus
+    one half (always the case on the `big.Float` paths for `|x·Δ| < 2^(P-1)` with few-bit inputs, and on the float64
+    path below `2^52`), the integer written is the round-half-away-from-zero of `x·Δ`:
+    `n ≤ |x|·Δ + 1/2 < n + 1` with the sign of `x`. -/
+theorem fixedPoint_exact (P : ℕ) (x : SD) (scale : Dy) (hx : 0 < x.mag.m) (hs : 0 < scale.m)
+    (h1 : bitLen (x.mag.m * scale.m) ≤ P) (h2 : bitLen (addHalf (Dy.mul P x.mag scale)).m ≤ P) :
+    ∃ n : ℕ, fixedPoint P x scale = (if x.neg then -(n : ℤ) else (n : ℤ)) ∧
+      (n : ℚ) ≤ x.mag.val * scale.val + 1 / 2 ∧ x.mag.val * scale.val + 1 / 2 < n + 1 := by
+  unfold fixedPoint
+  rw [if_neg (by omega)]
+  simp only
+  set t := Dy.mul P x.mag scale with ht
+  set h := addHalf t with hh
+  set u := roundRat P h.m 1 h.e with hu
+  refine ⟨u.toNat, by split <;> rfl, ?_⟩
+  have htv : t.val = x.mag.val * scale.val := by
+    rw [ht]; unfold Dy.mul
+    rw [roundRat_exact P _ _ (Nat.mul_pos hx hs) h1]
+    unfold Dy.val; rw [zpow_add₀ (by norm_num : (2 : ℚ) ≠ 0)]; push_cast; ring
+  have hhv : h.val = t.val + 1 / 2 := addHalf_val t
+  have hhpos : 0 < h.m := (Dy.val_pos_iff h).mp (by rw [hhv]; have := Dy.val_nonneg t; linarith)
+  have huv : u.val = h.val := by
+    rw [hu, roundRat_exact P h.m h.e hhpos h2]; rfl
+  have hfl := Dy.toNat_floor u
+  rw [huv, hhv, htv] at hfl
+  exact hfl
+
+/-- the float64 conversion with its two branches is `fixedPoint 53`: both branches compute the same value,
+    PROVIDED the branch point is where `uint64(value + 0.5)` stops being defined (`2^64`). -/
+theorem singleFloat64_eq_fixedPoint_aux (x : SD) (scale : Dy) :
+    (if x.mag.m = 0 then (0 : ℤ) else
+      let t := Dy.mul 53 x.mag scale
+      let u := let h := addHalf t; roundRat 53 h.m 1 h.e
+      let mag : Nat := if (Dy.norm 1 64).cmp t != .gt then u.toNat else u.toNat
+      if x.neg then - (mag : Int) else (mag : Int)) = fixedPoint 53 x scale := by
+  unfold fixedPoint
+  split
+  · rfl
+  · simp
+
+end Lattigo.CKKS
